@@ -1106,6 +1106,29 @@ pub fn case_bundle(bytes: &[u8], ctx: &mut Ctx) -> CaseResult {
     for o in &ops {
         ctx.label(format!("accepted:op{o}"));
     }
+    // (a') the same spends WITHOUT any signature condition: the empty set of pairs
+    // is signed by the identity and by nothing else — a non-identity aggregate
+    // (the one that was right a moment ago) must be refused at every entry point
+    {
+        let stripped: Bundle = bundle.iter().map(|sp| Spend { conds: vec![], ..sp.clone() }).collect();
+        let mut wrong: Vec<String> = vec![];
+        for e in ALL_ENTRIES {
+            if let Err(err) = run_entry(e, &stripped, &Signature::default(), None, &env) {
+                wrong.push(format!("{} rejects the identity signature: {err}", e.name()));
+            }
+            if sig != Signature::default() && run_entry(e, &stripped, &sig, None, &env).is_ok() {
+                wrong.push(format!("{} accepts a non-identity signature", e.name()));
+            }
+        }
+        vensure!(
+            wrong.is_empty(),
+            "C05:no-signature-conditions:wrong-verdict",
+            "spends without any AGG_SIG condition (identity signature must be accepted, the non-identity aggregate {} refused): {}",
+            hex::encode(sig.to_bytes()),
+            wrong.join("; ")
+        );
+        ctx.label("no-signature-conditions:checked");
+    }
 
     // (b) single-point tamperings
     let base = Base { bundle: bundle.clone(), net_idx, pairs, prov, sig };
